@@ -64,6 +64,16 @@ def truth_table(expr, ref, names):
 
 
 def r1_sufficiency(chk: Check):
+    # the ordering of CPU specifications is the hand-written disjunction: a generated (lexicographic) ordering never looks at the cores once the
+    # memory differs
+    for cname in ("CPUSpecification",):
+        cls = next((c for c in chk.tree.classes.values() if c.qual == cname and c.module.name == "launcherfinder.specs"), None)
+        if cls is not None and "__lt__" not in cls.methods:
+            gen = [d for d in cls.node.decorator_list if isinstance(d, ast.Call) and any(k.arg == "order" and isinstance(k.value, ast.Constant) and k.value.value for k in d.keywords)]
+            chk.require(not gen, f"launcherfinder.specs:{cname}:ordering generated from the fields", f"`{cname}` is ordered by a generated, lexicographic comparison ({src(gen[0]) if gen else ''}): "
+                        "a host with more memory but fewer cores than requested is not `<` the request and matches it", chk.loc(cls.module, cls.node))
+            if gen:
+                return
     tree = chk.tree
     # operators used by match
     lt = tree.func("launcherfinder.specs", "CPUSpecification.__lt__")
